@@ -48,6 +48,30 @@ Qed.
 Lemma zrange_from_single : forall a, zrange a (a + 1) = [a].
 Proof. intros. unfold zrange. replace (a + 1 - a) with 1 by lia. reflexivity. Qed.
 
+(* ------------------------------------------------------------------ periods of the dataslate *)
+
+(* every cell an equation can read -- a base period shifted by any lag/lead between the deepest lag and the deepest
+   lead of ANY quantity -- is a period of the dataslate, and its column is a valid non-negative index
+   (no wrap-around to the end of the array) *)
+Theorem extended_periods_cover : forall b0 b1 lo hi p s,
+  b0 <= p <= b1 -> lo <= s <= hi ->
+  let ps := extended_periods b0 b1 lo hi in
+  In (p + s) ps
+  /\ 0 <= column_of (b0 + lo) (p + s) < Z.of_nat (length ps)
+  /\ nth (Z.to_nat (column_of (b0 + lo) (p + s))) ps 0 = p + s.
+Proof.
+  intros b0 b1 lo hi p s Hp Hs ps. unfold ps, extended_periods, column_of.
+  split; [apply zrange_In; lia |].
+  unfold zrange. rewrite zrange_from_length. split; [lia |].
+  assert (G : forall n a k, (k < n)%nat -> nth k (zrange_from a n) 0 = a + Z.of_nat k).
+  { induction n; intros a k Hk; [lia |]. destruct k; simpl; [lia |]. rewrite IHn by lia. lia. }
+  rewrite G by lia. lia.
+Qed.
+
+(* ... and the base periods sit at the columns -lo, -lo+1, ... *)
+Theorem base_columns_spec : forall b0 lo p, column_of (b0 + lo) p = p - b0 - lo.
+Proof. intros. unfold column_of. lia. Qed.
+
 (* ------------------------------------------------------------------ break periods *)
 
 (* strictly increasing, inside [lo, hi) *)
